@@ -275,7 +275,8 @@ def _pub(flt):
     return {'k': flt['k'], 's': list(flt['s'])}
 
 
-def record(src: str, mode: str, pseed: int, tid: int, heavy_cap: int = 400, light: bool = False) -> dict:
+def record(src: str, mode: str, pseed: int, tid: int, heavy_cap: int = 400, light: bool = False,
+           focus: bool = False) -> dict:
     """One trace: the program's oracle table + every observation. Raises OracleError when the oracle cannot be built."""
     from fst import FST  # the code under test (never `from fst import *`)
 
@@ -317,24 +318,33 @@ def record(src: str, mode: str, pseed: int, tid: int, heavy_cap: int = 400, ligh
         return dict(o.table(), id=tid, items=items)
 
     # (1) walks from the root: every parameter combination x every filter kind
-    for flt in FLTS:
+    # focus (generated shape programs: many small programs whose point is the order of siblings): every combination
+    # unfiltered, the six orders for all=False / 'loc', four random filtered combinations
+    for flt in (FLTS[:3] if focus else FLTS):
         for on in ONS:
             for back in (False, True):
                 for rec in (True, False):
                     for self_ in (True, False):
+                        if focus and flt['k'] != 'T' and not (rec and self_):
+                            continue
                         do_walk(1, on, back, rec, self_, flt, full=(flt['k'] == 'T' and rec and self_))
+    if focus:
+        for _ in range(4):
+            do_walk(1, rng.choice(ONS), rng.random() < .5, rng.random() < .6, rng.random() < .6, rng.choice(FLTS[3:]))
 
     # (2) walks from every inner node (sampled above heavy_cap): all six orders unfiltered + random combinations
     inner = list(range(2, N + 1))
     if len(inner) > heavy_cap:
         inner = sorted(rng.sample(inner, heavy_cap))
     for x in inner:
+        if focus and len(o.fkids[x - 1]) < 2:   # focus: only from nodes that have siblings to order
+            continue
         for j, on in enumerate(ONS):
             for back in (False, True):
-                if light and back != bool((x + j) % 2):   # quick tier: three of the six orders per node, alternating
+                if light and not focus and back != bool((x + j) % 2):   # quick tier: three of the six orders per node
                     continue
                 do_walk(x, on, back, True, True, FLTS[0], full=(N <= heavy_cap))
-        for _ in range(2 if light else 3):
+        for _ in range(1 if focus else 2 if light else 3):
             do_walk(x, rng.choice(ONS), rng.random() < .5, rng.random() < .6, rng.random() < .6, rng.choice(FLTS))
 
     # (3) navigation: every node x filter  (a call that raises is recorded as RAISED)
@@ -359,7 +369,7 @@ def record(src: str, mode: str, pseed: int, tid: int, heavy_cap: int = 400, ligh
         return s
 
     rng_all = range(1, N + 1)
-    for flt in (FLTS[:3] + [FLTS[3 + pseed % 2]] if light else FLTS[:5]):
+    for flt in ([FLTS[0], FLTS[1 + pseed % 2]] if focus else FLTS[:3] + [FLTS[3 + pseed % 2]] if light else FLTS[:5]):
         arg = _flt_arg(flt, rng)
         fs = [None] + [lv.fst(x) for x in rng_all]
         it = {'call': 'nav', 'flt': _pub(flt)}
